@@ -358,14 +358,13 @@ func main() {
 			lens := segLens
 			budget := 45 * time.Second
 			if tier == "thorough" {
-				maxSegs, dev = 4, 3
 				lens = []int{0, 1, 2, 3, 5, 8}
-				budget = 12 * time.Minute
+				budget = 15 * time.Minute
 			}
-			streams := allStreams(maxSegs, lens)
-			return []mc.Family{
-				{
-					Name:   "streams-x-caller-x-source",
+			streamFamily := func(name string, maxSegs, dev int, lens []int) mc.Family {
+				streams := allStreams(maxSegs, lens)
+				return mc.Family{
+					Name:   name,
 					Items:  len(streams),
 					MaxDev: dev,
 					Body:   streamBody(streams),
@@ -375,15 +374,25 @@ func main() {
 						"non-trivial = execution reached the end of a stream with non-empty expected output", maxSegs, lens, dev),
 					Describe: func(i int) string { return streams[i].String() },
 					CrashKey: func(i int) string { return "C14:crash:" + endingNames[streams[i].ending] },
-				},
-				{
+				}
+			}
+			fams := []mc.Family{streamFamily("streams-x-caller-x-source", maxSegs, dev, lens)}
+			if tier == "thorough" {
+				// the product "4 segments x 6 lengths x 3 deviations" (154,576 streams) needs
+				// hours; the two faces of it that fit the budget are explored completely
+				fams = []mc.Family{
+					streamFamily("streams-x-caller-x-source", 3, 3, lens),
+					streamFamily("streams-of-4-segments", 4, 2, []int{0, 1, 3}),
+				}
+			}
+			return append(fams,
+				mc.Family{
 					Name:   "first-two-header-bytes",
 					Items:  65536,
 					Body:   headerBody,
 					Budget: budget,
 					Rule:   "item = each of the 2^16 values of the first two header bytes x 5 declared lengths (0,1,3,2^24,2^32-1) x 3 caller buffer sizes; non-trivial = all (every case has a distinct header/length/size)",
-				},
-			}
+				})
 		},
 	})
 }
